@@ -934,6 +934,46 @@ func (x *Exec) callWrites(st *State, caller *ssa.Function, region []*ssa.BasicBl
 				x.noteEscapingCells(v, ws)
 			}
 		}
+		if callee == nil {
+			switch cv := c.Value.(type) {
+			case *ssa.MakeClosure:
+				// closure created in the analysed region and called (func(){...}())
+				callee = cv.Fn.(*ssa.Function)
+				for _, b := range cv.Bindings {
+					if env != nil {
+						if bv, ok := env[b]; ok {
+							bindings = append(bindings, bv)
+							if bv.Loc != nil && bv.Loc.Kind == LCell && len(bindings)-1 < len(callee.FreeVars) && freeVarMayBeWritten(callee, len(bindings)-1) {
+								x.noteEscapingCells(bv, ws)
+							}
+							continue
+						}
+					}
+					bindings = append(bindings, Val{})
+				}
+			case *ssa.Call:
+				// value returned by a call (defer p.lockPod(..)()): any closure the callee creates
+				if inner := cv.Call.StaticCallee(); inner != nil && len(inner.Blocks) > 0 && isGalaxy(inner) && !seen[inner] {
+					handled := false
+					for _, b := range inner.Blocks {
+						for _, ins := range b.Instrs {
+							if mc, ok := ins.(*ssa.MakeClosure); ok {
+								handled = true
+								fnc := mc.Fn.(*ssa.Function)
+								if !seen[fnc] && depth < x.maxDepth {
+									seen[fnc] = true
+									x.collectWrites(st, fnc, fnc.Blocks, map[ssa.Value]Val{}, ws, depth+1, seen)
+									delete(seen, fnc)
+								}
+							}
+						}
+					}
+					if handled {
+						return
+					}
+				}
+			}
+		}
 		if callee != nil {
 			con = x.contractFor(callee)
 			if con == nil {
